@@ -132,6 +132,46 @@ def run(ctx):
                             cls="C12-torn-accepted")
                         break
         ctx.exhaustive.append("every cut point of %d independently encoded files with 1/2/8-byte row-id words" % n_other)
+        # the same torn bytes handed over as other kinds of file object: an in-memory stream, a buffered reader over a pipe-like
+        # raw object without a usable descriptor, a file opened unbuffered.  None of them may load either.
+        import io
+        import os as _os
+        import tempfile as _tf
+        from catii.indxio import IndxIO
+        n_obj = 0
+        for case in list(X.exhaustive_cases())[::9] + [X.gen_case(ctx.rng, small=True) for _ in range(ctx.n(6))]:
+            sv = X.impl_save(case["entries"], case["common"])
+            if sv[0] != "ok" or len(sv[1]) > 400:
+                continue
+            b = sv[1]
+            n_obj += 1
+            for k in range(len(b)):
+                for kind in ("BytesIO", "BufferedReader(BytesIO)", "unbuffered file"):
+                    ctx.evaluations += 1
+                    try:
+                        if kind == "BytesIO":
+                            IndxIO.load(io.BytesIO(b[:k]))
+                        elif kind == "BufferedReader(BytesIO)":
+                            IndxIO.load(io.BufferedReader(io.BytesIO(b[:k])))
+                        else:
+                            with _tf.NamedTemporaryFile(prefix="catii-indx-", delete=False) as tf:
+                                tf.write(b[:k])
+                            try:
+                                with open(tf.name, "rb", buffering=0) as fh:
+                                    IndxIO.load(fh)
+                            finally:
+                                _os.unlink(tf.name)
+                    except Exception:
+                        continue
+                    ctx.hit("torn_accepted_via:" + kind)
+                    ctx.oracle_fail("load of a file cut at byte %d of %d, handed over as %s, returned entries" % (k, len(b), kind),
+                                    dict(X.small_desc(case), cut=k, file_len=len(b), file_object=kind), cls="C12-torn-accepted")
+                    break
+                else:
+                    continue
+                break
+        ctx.hit("file_object_kinds", n_obj)
+        ctx.exhaustive.append("every cut point of %d files as BytesIO / BufferedReader / unbuffered file objects" % n_obj)
         interrupted_saves(ctx, ld)
         if ctx.oracle_only:
             return
@@ -148,6 +188,8 @@ def run(ctx):
 def replay(ctx, rep):
     core.load_catii()
     c = rep["case"]
+    if c.get("file_object"):
+        return True    # re-run the check: the three kinds of file object are built there
     if c.get("rowid_word"):
         ld = X.Loader()
         try:
